@@ -583,6 +583,245 @@ theorem src_macro_arms :
     ∧ Generated.localrec_metadata_var_new_args = "$target, $level, ::core::option::Option::Some(::std::module_path!())," := by
   decide
 
+/-! ### (j) exactly once, for ALL programs: nothing but a macro call reaches a recorder -/
+
+/-- the macro call an op makes, if it is one -/
+def callOf : Tid × Op → Option (Tid × Call)
+  | (t, .emit c) => some (t, c)
+  | _ => none
+
+/-- an op that is not a macro call makes no recorder call: installing, dropping or forgetting a guard, entering or
+    leaving (also by unwinding) a `with_local_recorder` frame, `set_global_recorder`, the end of a borrow — ALL states -/
+theorem only_emit_logs (s : St) (t : Tid) (op : Op) (h : callOf (t, op) = none) : (step s t op).1.log = s.log := by
+  cases op with
+  | emit c => simp [callOf] at h
+  | _ => unfold step <;> simp only <;> (repeat' split) <;> rfl
+
+/-- **delivered exactly once** — ANY program, any threads, no discipline: the recorder calls made during the program
+    are, in order, exactly its macro calls (thread and call as written): none is lost, none is made twice, and no
+    other op of the program makes one -/
+theorem delivered_exactly_once (ops : List (Tid × Op)) :
+    ∀ s, (run s ops).log.map (fun e => (e.tid, e.call)) = s.log.map (fun e => (e.tid, e.call)) ++ ops.filterMap callOf := by
+  induction ops with
+  | nil => intro s; simp [run]
+  | cons o rest ih =>
+    intro s
+    rw [run_cons, ih]
+    obtain ⟨t, op⟩ := o
+    cases hc : callOf (t, op) with
+    | none =>
+      rw [only_emit_logs s t op hc]
+      simp [hc]
+    | some tc =>
+      cases op <;> simp [callOf] at hc
+      subst hc
+      simp [step, callOf]
+
+/-- … in particular the number of recorder calls is the number of macro calls -/
+theorem delivery_count (g : Option RecId) (ops : List (Tid × Op)) :
+    (run (init g) ops).log.length = (ops.filterMap callOf).length := by
+  have := congrArg List.length (delivered_exactly_once ops (init g))
+  simpa [init] using this
+
+/-! ### (k) the handle the call site gets is the one the recorder in scope made -/
+
+/-- a `counter!/gauge!/histogram!` call evaluates to the handle returned by the recorder it was dispatched to; a
+    `describe_*!` call to nothing — ALL states -/
+theorem handle_from_dispatch_target (s : St) (t : Tid) (c : Call) :
+    ∃ e, (step s t (.emit c)).2 = .emitted e ∧
+      handleOf e = (match c with | .reg _ => some (dispatch s t) | .desc _ => none) := by
+  refine ⟨_, rfl, ?_⟩
+  cases c <;> rfl
+
+/-- in a disciplined program that is the innermost recorder in scope (else global, else no-op) -/
+theorem handle_from_innermost_partial (g : Option RecId) (pre : List (Tid × Op)) (t : Tid) (c : RegCall)
+    (h : disc (init g) pre = true) :
+    ∃ e, (step (run (init g) pre) t (.emit (.reg c))).2 = .emitted e ∧ handleOf e = some (innermost (run (init g) pre) t) := by
+  refine ⟨_, rfl, ?_⟩
+  show some (dispatch _ t) = _
+  rw [dispatch_eq_innermost _ t (reachable_inv g pre h)]
+
+/-! ### (l) two more things the type system must refuse (type probes), and what would happen if it did not -/
+
+/-- **the `&dyn Recorder` handed to the closure of `with_recorder` cannot be kept** (`impl FnOnce(&dyn Recorder) -> T`:
+    the lifetime is higher-ranked, `T` cannot name it) — not a program; ALL states -/
+theorem keepRef_rejected (s : St) (t : Tid) : step s t .keepRef = (s, .rejected) := rfl
+
+/-- **a guard value cannot be duplicated** (`LocalRecorderGuard` is neither `Clone` nor `Copy`) — ALL states -/
+theorem dupGuard_rejected (s : St) (t : Tid) (g : GuardId) : step s t (.dupGuard g) = (s, .rejected) := rfl
+
+/-- `with_local_recorder(&r1, || { kept = with_recorder(|r| r) });` then `r1`'s borrow ends -/
+def keepRefProgram : List (Tid × Op) := [(0, .enter 1), (0, .exit false), (0, .endBorrow 1)]
+
+/-- why `keepRef` must be rejected: in a perfectly LIFO, borrow-checked program the reference `with_recorder` hands
+    out inside the scope is recorder 1, and after the program recorder 1's borrow has ended — a call through a kept
+    reference would be a dispatch after the end of the installing borrow (clause 6), with no guard misuse at all -/
+theorem escaped_ref_would_be_stale :
+    disc (init none) keepRefProgram = true ∧ borrowChecked (init none) keepRefProgram = true
+    ∧ dispatch (run (init none) (keepRefProgram.take 1)) 0 = .loc 1
+    ∧ isStale (run (init none) keepRefProgram) (.loc 1) = true
+    ∧ dispatch (run (init none) keepRefProgram) 0 = .noop := by decide
+
+/-- `g0 = install 1; g1 = install 2; drop g1; drop g0;` the borrow of recorder 1 ends (g1 borrowed recorder 2 only) -/
+def dupPrefix : List (Tid × Op) :=
+  [(0, .install 1), (0, .install 2), (0, .dropGuard 1), (0, .dropGuard 0), (0, .endBorrow 1)]
+
+/-- why `dupGuard` must be rejected: after the LIFO, borrow-checked `dupPrefix`, the destructor of a second copy of
+    `g1` (`Drop` = `replace(prev_recorder)`, here `dropG` with `g1`'s record: it saved recorder 1) re-installs recorder 1
+    after its borrow ended; the next macro call is dispatched to it -/
+theorem cloned_guard_would_dispatch_stale :
+    disc (init none) dupPrefix = true ∧ borrowChecked (init none) dupPrefix = true
+    ∧ (run (init none) dupPrefix).loc 0 = none
+    ∧ (step (dropG (run (init none) dupPrefix) 0
+              { tid := 0, id := 1, rcd := 2, prev := some 1, live := false, forgotten := false }) 0 (.emit c0)).2
+        = .emitted { tid := 0, target := .loc 1, stale := true, call := c0 } := by decide
+
+/-- the probe programs on the model -/
+theorem probes2_rejected :
+    (step (step (init none) 0 (.enter 1)).1 0 .keepRef).2 = .rejected
+    ∧ (step (step (init none) 0 (.install 1)).1 0 (.dupGuard 0)).2 = .rejected := by decide
+
+/-! ### (m) macro calls made by destructors — also while a panic unwinds the frame -/
+
+theorem compile_flush (t : Tid) (pend : List Call) (k : Prog) :
+    compile t (flush pend k) = pend.map (fun c => (t, Op.emit c)) ++ compile t k := by
+  induction pend with
+  | nil => rfl
+  | cons c cs ih => simp [flush, compile, ih]
+
+theorem panics_flush (pend : List Call) (k : Prog) : (flush pend k).panics = k.panics := by
+  induction pend with
+  | nil => rfl
+  | cons c cs ih => simpa [flush, Prog.panics] using ih
+
+/-- how a body is left does not depend on the destructors pending around it -/
+theorem panics_lower (p : ProgD) : ∀ pend, (lower pend p).panics = (lower [] p).panics := by
+  induction p with
+  | done => intro pend; simp [lower, panics_flush]
+  | panic => intro pend; simp [lower, panics_flush]
+  | emit c rest ih => intro pend; simpa [lower, Prog.panics] using ih pend
+  | defer c rest ih => intro pend; rw [lower, lower, ih (c :: pend), ih [c]]
+  | withLocal r body rest _ ihr => intro pend; simpa [lower, Prog.panics] using ihr pend
+
+/-- **the destructors run when the body is left, after everything else the body did, newest first** — whether it is
+    left by return or by a panic -/
+theorem compile_lower_pend (t : Tid) (p : ProgD) :
+    ∀ pend, compile t (lower pend p) = compile t (lower [] p) ++ pend.map (fun c => (t, Op.emit c)) := by
+  induction p with
+  | done => intro pend; simp [lower, compile_flush, flush, compile]
+  | panic => intro pend; simp [lower, compile_flush, flush, compile]
+  | emit c rest ih => intro pend; simp [lower, compile, ih pend]
+  | defer c rest ih =>
+    intro pend
+    rw [lower, lower, ih (c :: pend), ih [c]]
+    simp
+  | withLocal r body rest _ ihr =>
+    intro pend
+    simp [lower, compile, ihr pend]
+
+/-- `with_local_recorder(&r, || { let _d = EmitOnDrop(c); body })`: the op stream is `enter r`, the body, THEN the
+    macro call `c`, and only then the frame's exit (by return or unwinding — the same flag the body alone would give) -/
+theorem defer_runs_inside_scope (t : Tid) (r : RecId) (c : Call) (body rest : ProgD) :
+    compileD t (.withLocal r (.defer c body) rest)
+      = (t, .enter r) :: ((compile t (lower [] body) ++ [(t, .emit c)])
+          ++ (t, .exit (lower [] body).panics) :: compile t (lower [] rest)) := by
+  show compile t (.withLocal r (lower [c] body) (lower [] rest)) = _
+  rw [compile, compile_lower_pend t body [c], panics_lower body [c]]
+  rfl
+
+/-- **every program of closures, macro calls, panics and "emit on drop" locals keeps the discipline** (any depth):
+    (a) and (b) hold for every macro call in it, those made by destructors during unwinding included -/
+theorem defer_programs_disciplined (t : Tid) (p : ProgD) (s : St) (h : LocalRec.Inv s) (he : s.ended = []) :
+    disc s (compileD t p) = true ∧ liveGuards (run s (compileD t p)) t = liveGuards s t
+      ∧ (run s (compileD t p)).loc t = s.loc t :=
+  closures_only_disciplined t (lower [] p) s h he
+
+/-- **a macro call made by the destructor of a local of a `with_local_recorder(&r, ..)` body reaches `r`**, exactly
+    once, whatever the body did before (nested scopes, panics caught inside) and however it is left — by return or
+    by a panic (then the call is made while the thread is unwinding) -/
+theorem deferred_reaches_own_scope (t : Tid) (r : RecId) (c : Call) (body : ProgD) (s : St)
+    (h : LocalRec.Inv s) (he : s.ended = []) :
+    (step (run (step s t (.enter r)).1 (compile t (lower [] body))) t (.emit c)).2
+      = .emitted { tid := t, target := .loc r, stale := false, call := c } := by
+  have hnot : s.ended.contains r = false := by rw [he]; rfl
+  let s1 : St := { (install s t r).1 with scopes := upd (install s t r).1.scopes t ((install s t r).2 :: s.scopes t) }
+  have hs1 : (step s t (.enter r)).1 = s1 := by
+    unfold step; simp only [hnot]; rfl
+  have hi1 : LocalRec.Inv s1 := inv_scopes _ _ (inv_install s t r h hnot)
+  have hl1 : liveGuards s1 t = newGuard s t r :: liveGuards s t := liveGuards_install_same s t r
+  have he1 : s1.ended = [] := he
+  obtain ⟨_, ib, _, lb, _⟩ := closures_only_aux t (lower [] body) s1 hi1 he1
+  rw [hs1]
+  have h1 := dispatch_eq_innermost _ t ib
+  have h2 := innermost_fresh _ t ib
+  have h3 : innermost (run s1 (compile t (lower [] body))) t = .loc r := by
+    unfold innermost; rw [lb, hl1]; rfl
+  rw [h3] at h2
+  unfold step
+  simp only [h1, h3, h2]
+
+/-- a body that panics after opening (and unwinding) a nested scope: the destructor's call is the op before `unwind` -/
+example :
+    compileD 0 (.withLocal 1 (.defer c0 (.emit c0 (.withLocal 2 (.defer c0 .panic) .panic))) (.emit c0 .done))
+      = [(0, .enter 1), (0, .emit c0), (0, .enter 2), (0, .emit c0), (0, .exit true), (0, .emit c0), (0, .exit true),
+         (0, .emit c0)] := by decide
+
+example :
+    (run (init (some 900)) (compileD 0 (.withLocal 1 (.defer c0 (.emit c0 (.withLocal 2 (.defer c0 .panic) .panic))) (.emit c0 .done)))).log.map
+        (fun e => (e.target, e.stale))
+      = [(.loc 1, false), (.loc 2, false), (.loc 1, false), (.glob 900, false)] := by decide
+
+/-! ### (n) more facts of the source: signatures, attributes, impl lists, whole bodies -/
+
+/-- `with_recorder`'s SIGNATURE confines the recorder reference to the call (what `keepRef_rejected` stands for), and
+    its whole body is the three-way dispatch and nothing else (no `thread::panicking()` test, no second lookup) -/
+theorem src_with_recorder_sig_body :
+    Generated.localrec_with_recorder_sig = "pub fn with_recorder<T>(f: impl FnOnce(&dyn Recorder) -> T) -> T"
+    ∧ Generated.localrec_with_recorder_body
+        = "{ LOCAL_RECORDER.with(|local_recorder| { if let Some(recorder) = local_recorder.get() { UNSAFE { f(recorder.as_ref()) } } else if let Some(global_recorder) = GLOBAL_RECORDER.try_load() { f(global_recorder) } else { f(&NOOP_RECORDER) } }) }" :=
+  ⟨rfl, rfl⟩
+
+/-- the guard type: no attribute (no `#[derive(Clone)]`), exactly the two fields, exactly one inherent impl with the
+    private `new` and one trait impl, `Drop` (no manual `Clone`/`Copy`/`Send`/`Sync`) — what `dupGuard_rejected` and
+    `foreign_drop_rejected` stand for -/
+theorem src_guard_type :
+    Generated.localrec_guard_attrs = []
+    ∧ Generated.localrec_guard_decl = "pub struct LocalRecorderGuard<'a>"
+    ∧ Generated.localrec_guard_fields
+        = "{ prev_recorder: Option<NonNull<dyn Recorder>>, phantom: PhantomData<&'a dyn Recorder>, }"
+    ∧ Generated.localrec_guard_impls = ["impl<'a> LocalRecorderGuard<'a>", "impl<'a> Drop for LocalRecorderGuard<'a>"]
+    ∧ Generated.localrec_guard_impl_fns = ["fn new"] := ⟨rfl, rfl, rfl, rfl, rfl⟩
+
+/-- the whole bodies of `LocalRecorderGuard::new`, its `Drop`, `set_default_local_recorder` and `set_global_recorder`:
+    none of them calls a recorder method (`only_emit_logs`) or does anything besides the one `replace` / `set` -/
+theorem src_scope_bodies :
+    Generated.localrec_guard_new_body
+        = "{ let recorder_ptr = UNSAFE { std::mem::transmute::<*const (dyn Recorder + 'a), *mut (dyn Recorder + 'static)>( recorder as &'a (dyn Recorder + 'a), ) }; let recorder_ptr = UNSAFE { NonNull::new_unchecked(recorder_ptr) }; let prev_recorder = LOCAL_RECORDER.with(|local_recorder| local_recorder.replace(Some(recorder_ptr))); Self { prev_recorder, phantom: PhantomData } }"
+    ∧ Generated.localrec_guard_drop_impl
+        = "{ fn drop(&mut self) { LOCAL_RECORDER.with(|local_recorder| local_recorder.replace(self.prev_recorder.take())); } }"
+    ∧ Generated.localrec_set_default_body = "{ LocalRecorderGuard::new(recorder) }"
+    ∧ Generated.localrec_set_global_sig
+        = "pub fn set_global_recorder<R>(recorder: R) -> Result<(), SetRecorderError<R>> where R: Recorder + Sync + 'static,"
+    ∧ Generated.localrec_set_global_body = "{ GLOBAL_RECORDER.set(recorder) }" := ⟨rfl, rfl, rfl, rfl, rfl⟩
+
+/-- the full arm of `counter!/gauge!/histogram!`, whole: key, metadata, ONE unconditional `with_recorder` call whose
+    value (the handle the recorder returned, `handleOf`) is the value of the macro; the two arms of `describe!`, whole:
+    ONE unconditional `with_recorder` call of the named method with name, unit (`Some`/`None`), description; and each
+    `describe_*!` forwards to `describe!` with its own method name -/
+theorem src_macro_bodies :
+    Generated.localrec_macro_full_arms
+      = [("counter", "{{ let metric_key = $crate::key_var!($name $(, $label_key $(=> $label_value)?)*); let metadata = $crate::metadata_var!($target, $level); $crate::with_recorder(|recorder| recorder.register_counter(&metric_key, metadata)) }}"),
+         ("gauge", "{{ let metric_key = $crate::key_var!($name $(, $label_key $(=> $label_value)?)*); let metadata = $crate::metadata_var!($target, $level); $crate::with_recorder(|recorder| recorder.register_gauge(&metric_key, metadata)) }}"),
+         ("histogram", "{{ let metric_key = $crate::key_var!($name $(, $label_key $(=> $label_value)?)*); let metadata = $crate::metadata_var!($target, $level); $crate::with_recorder(|recorder| recorder.register_histogram(&metric_key, metadata)) }}")]
+    ∧ Generated.localrec_describe_arms
+      = ["{{ $crate::with_recorder(|recorder| { recorder.$method( ::core::convert::Into::into($name), ::core::option::Option::Some($unit), ::core::convert::Into::into($description), ); }); }}",
+         "{{ $crate::with_recorder(|recorder| { recorder.$method( ::core::convert::Into::into($name), ::core::option::Option::None, ::core::convert::Into::into($description), ); }); }}"]
+    ∧ Generated.localrec_describe_forwards
+      = [("describe_counter", ["describe_counter, $name, $unit, $description", "describe_counter, $name, $description"]),
+         ("describe_gauge", ["describe_gauge, $name, $unit, $description", "describe_gauge, $name, $description"]),
+         ("describe_histogram", ["describe_histogram, $name, $unit, $description", "describe_histogram, $name, $description"])] :=
+  ⟨rfl, rfl, rfl⟩
+
 /-- a callback that emits, one that panics, inside a depth-2 scope: the log shows both deliveries at the inner
     recorder and the scope intact afterwards -/
 example :
